@@ -1013,6 +1013,20 @@ def C19(ck):
             ck.cov['selftest_unlinkfirst'] = {'configs_violating_CrashSafe': bad}
             if bad == 0:
                 raise kzv.ToolFailure('vacuity self-test: removing the source first does not violate CrashSafe')
+    # (a') the file worker pool of the tool (specification grown beyond the listed properties): the early-exit path of the
+    # as-found code can send on a closed channel (observation F18 in DESIGN.md, reproduced on the real tool, not a C19 clause)
+    for close, failing, expect_ok in (('never', '{}', True), ('never', '{2}', True), ('never', '{1, 3}', True), ('asis', '{}', True), ('asis', '{2}', False)):
+        c = 'CONSTANTS\n NTasks = %d\n NWorkers = %d\n Failing = %s\n Close = "%s"\nSPECIFICATION Spec\nINVARIANTS NoSendOnClosed MainProgress\n' % (
+            5 if T else 4, 3 if T else 2, failing, close)
+        res = kzv.tlc('KzWorkerPool', c, workers=2, timeout=600)
+        if expect_ok:
+            ck.add_tlc(res, 'KzWorkerPool close=%s failing=%s' % (close, failing))
+            if not res.ok:
+                raise kzv.ToolFailure('KzWorkerPool fails its own check: ' + res.out[-1500:])
+        else:
+            ck.cov['worker_pool_asis'] = {'violated': res.violated, 'note': 'send on closed results channel after an early exit (F18, outside the listed properties)'}
+            if not res.violated:
+                raise kzv.ToolFailure('vacuity self-test: the as-found worker pool never sends on a closed channel')
     # (b) the real tool
     root = os.path.join(kzv.BUILD, 'c19_%d' % os.getpid())
     cli = kzcli.Cli(ck, root)
